@@ -841,8 +841,10 @@ func (t *State) doTxSync(tx *pb.Transaction) error {
 	t.utxo.Mutex.RLock()
 	defer t.utxo.Mutex.RUnlock() //lock guard
 	spLockKeys := t.utxo.SpLock.ExtractLockKeys(tx)
+	utxo.VerifYield("dotx:before-trylock")
 	succLockKeys, lockOK := t.utxo.SpLock.TryLock(spLockKeys)
 	defer t.utxo.SpLock.Unlock(succLockKeys)
+	utxo.VerifYield("dotx:after-trylock")
 	if !lockOK {
 		t.log.Info("failed to lock", "txid", utils.F(tx.Txid))
 		return ErrDoubleSpent
@@ -856,9 +858,11 @@ func (t *State) doTxSync(tx *pb.Transaction) error {
 		t.log.Debug("this tx already in unconfirm table, when DoTx", "txid", utils.F(tx.Txid))
 		return ErrAlreadyInUnconfirmed
 	}
+	utxo.VerifYield("dotx:after-pool-check")
 	batch := t.ldb.NewBatch()
 	cacheFiller := &utxo.CacheFiller{}
 	doErr := t.doTxInternal(tx, batch, cacheFiller)
+	utxo.VerifYield("dotx:after-apply")
 	if doErr != nil {
 		t.log.Info("doTxInternal failed, when DoTx", "doErr", doErr)
 		return doErr
@@ -866,6 +870,7 @@ func (t *State) doTxSync(tx *pb.Transaction) error {
 	batch.Put(append([]byte(pb.UnconfirmedTablePrefix), tx.Txid...), pbTxBuf)
 	t.log.Debug("print tx size when DoTx", "tx_size", batch.ValueSize(), "txid", utils.F(tx.Txid))
 	writeErr := batch.Write()
+	utxo.VerifYield("dotx:after-write")
 	if writeErr != nil {
 		t.ClearCache()
 		t.log.Warn("fail to save to ldb", "writeErr", writeErr)
@@ -873,6 +878,7 @@ func (t *State) doTxSync(tx *pb.Transaction) error {
 	}
 	t.tx.UnconfirmTxInMem.Store(string(tx.Txid), tx)
 	cacheFiller.Commit()
+	utxo.VerifYield("dotx:before-unlock")
 	return nil
 }
 
@@ -888,6 +894,7 @@ func (t *State) doTxInternal(tx *pb.Transaction, batch kvdb.Batch, cacheFiller *
 		t.log.Warn("xmodel DoTx failed", "err", err)
 		return ErrRWSetInvalid
 	}
+	utxo.VerifYield("dotx:after-kv-check")
 	for _, txInput := range tx.TxInputs {
 		addr := txInput.FromAddr
 		txid := txInput.RefTxid
